@@ -1,2 +1,109 @@
-From Coq Require Import ZArith List Bool.
-From Cij Require Import InterpModel.
+(** C11 - every interpolation method returns a consistent (omega, gamma, V dgamma/dV) triple.
+    Theorems about the model coq/theories/{PolyModel,InterpModel}.v at the real instance
+    (lemmas in Poly.v / Interp.v).  x = ln V throughout. *)
+From Coq Require Import Reals ZArith List Bool.
+From Coquelicot Require Import Coquelicot.
+From Cij Require Import Ops ROps PolyModel InterpModel Poly Interp.
+Import ListNotations.
+Local Open Scope R_scope.
+
+(** 1a. numpy.polyder is the derivative of numpy.polyval, for every coefficient list *)
+Theorem polyder_is_derive : forall (p : list R) (x : R),
+  is_derive (polyvalR p) x (polyvalR (polyderR p) x).
+Proof. exact polyder_is_derive_l. Qed.
+
+(** 1b. lagrange, krogh, lsq_poly: for every order and data set the returned triples are those of
+    ONE coefficient list p, and gamma = - d ln(omega)/d ln V, third = d gamma/d ln V of it *)
+Theorem triple_consistent_poly :
+  forall (lib : @library R) (m : method) (order : nat) (vols freqs : list R),
+    poly_method m ->
+    exists p : list R,
+      (forall grid, @mode_fn R ROps lib m order vols freqs grid = map (fun v => poly_tripleR p (ln v)) grid) /\
+      forall x,
+        is_derive (fun t => ln (fst (fst (poly_tripleR p t)))) x (- snd (fst (poly_tripleR p x))) /\
+        is_derive (fun t => snd (fst (poly_tripleR p t))) x (snd (poly_tripleR p x)).
+Proof. exact triple_consistent_poly_l. Qed.
+
+(** 2a. power-law data through lagrange / krogh: exact on the WHOLE grid (no range hypothesis on grid) *)
+Theorem power_law_exact :
+  forall (lib : @library R) (m : method) (order : nat) (vols : list R) (a b : R) (grid : list R),
+    m = Lagrange \/ m = Krogh ->
+    List.Forall (fun v => 0 < v) vols -> NoDup vols -> (2 <= length (subsample order vols))%nat ->
+    @mode_fn R ROps lib m order vols (map (power_law a b) vols) grid =
+    map (fun V => (exp (a + b * ln V), - b, 0)) grid.
+Proof. exact power_law_exact_l. Qed.
+
+(** 2b. uniqueness of the interpolating polynomial (coefficient lists of equal length agreeing on
+    at least that many distinct points agree everywhere) *)
+Theorem interpolant_unique : forall (p q pts : list R),
+  length p = length q -> NoDup pts -> (length p <= length pts)%nat ->
+  (forall t, In t pts -> polyvalR p t = polyvalR q t) -> forall x, polyvalR p x = polyvalR q x.
+Proof. exact poly_unique. Qed.
+
+(** 2c. least squares: ANY coefficient list c (order+1 entries) satisfying the normal equations
+    A^T (A c - y) = 0 reproduces data that are a polynomial q of degree <= order sampled at more
+    than order distinct abscissae - value, gamma and third component, at every x.
+    (That the elimination in [lsq_coeffs] returns such a c is checked numerically by the tie.) *)
+Theorem lsq_poly_exact_upto_order :
+  forall (order : nat) (xs q c roots : list R),
+    length q = S order -> length c = S order ->
+    NoDup roots -> incl roots xs -> (order < length roots)%nat ->
+    normal_eqs order xs (map (polyvalR q) xs) c ->
+    forall x, poly_tripleR c x = poly_tripleR q x.
+Proof. exact lsq_poly_exact_upto_order_l. Qed.
+
+Theorem lsq_power_law_exact :
+  forall (order : nat) (vols c : list R) (a b : R),
+    (1 <= order)%nat -> length c = S order ->
+    List.Forall (fun v => 0 < v) vols -> NoDup vols -> (order < length vols)%nat ->
+    normal_eqs order (map ln vols) (map ln (map (power_law a b) vols)) c ->
+    forall x, poly_tripleR c x = (exp (a + b * x), - b, 0).
+Proof. exact lsq_power_law_exact_l. Qed.
+
+(** 3. the double loop: Gamma acoustic entries are 0; every other entry [v][q][m] is the v-th
+    result of the per-mode function on the input column [.][q][m] and depends on nothing else *)
+Theorem loop_indexing :
+  forall (mf : list R -> list R -> list R -> list (@triple R)) nq np vols freqs freqs' grid iv q m,
+    (iv < length grid)%nat -> (q < nq)%nat -> (m < np)%nat ->
+    (q = 0%nat /\ (m < 3)%nat -> get3 (@interpolate_modes R ROps mf nq np vols freqs grid) iv q m = zero3) /\
+    (~ (q = 0%nat /\ (m < 3)%nat) ->
+       get3 (@interpolate_modes R ROps mf nq np vols freqs grid) iv q m =
+       nth iv (mf vols (mode_col freqs q m) grid) zero3) /\
+    (mode_col freqs q m = mode_col freqs' q m ->
+       get3 (@interpolate_modes R ROps mf nq np vols freqs grid) iv q m =
+       get3 (@interpolate_modes R ROps mf nq np vols freqs' grid) iv q m).
+Proof. intros. apply loop_indexing_l; assumption. Qed.
+
+(** 4. plot selection: [plot_ok] decides the documented selection for any table read from the source ... *)
+Theorem plot_select_spec_iff : forall tbl layout,
+  plot_ok tbl layout = true <->
+  (plot_select tbl layout 0 = Some QOmega /\ plot_select tbl layout 1 = Some QGamma /\
+   plot_select tbl layout 2 = Some QVdGdV).
+Proof. exact plot_select_spec_iff_l. Qed.
+(** ... and the code as it is on the pinned tree is REFUTED (finding D6) *)
+Theorem plot_select_refuted :
+  plot_select pinned_table pinned_layout 1 = Some QVdGdV /\
+  plot_select pinned_table pinned_layout 2 = Some QGamma /\
+  exists n q, In (n, q) plot_spec /\ plot_select pinned_table pinned_layout n <> Some q.
+Proof. exact plot_select_refuted_l. Qed.
+
+(** 5. spline / pchip / akima / hermite: consistent IF the library's nu=1, nu=2 evaluations are
+    the derivatives of its nu=0 evaluation *)
+Theorem triple_consistent_oracle :
+  forall (o : @interp_oracle R),
+    (forall grid, @oracle_mode R ROps o grid = map (fun v => oracle_tripleR o (ln v)) grid) /\
+    (library_contract o -> forall x,
+        is_derive (fun t => ln (fst (fst (oracle_tripleR o t)))) x (- snd (fst (oracle_tripleR o x))) /\
+        is_derive (fun t => snd (fst (oracle_tripleR o t))) x (snd (oracle_tripleR o x))).
+Proof. exact triple_consistent_oracle_l. Qed.
+
+Print Assumptions polyder_is_derive.
+Print Assumptions triple_consistent_poly.
+Print Assumptions power_law_exact.
+Print Assumptions interpolant_unique.
+Print Assumptions lsq_poly_exact_upto_order.
+Print Assumptions lsq_power_law_exact.
+Print Assumptions loop_indexing.
+Print Assumptions plot_select_spec_iff.
+Print Assumptions plot_select_refuted.
+Print Assumptions triple_consistent_oracle.
